@@ -364,3 +364,17 @@ unit("quotient.compute.decision", QP, "compute",
       ("vanishing_coset_inverses", sym("vanishing_coset_inverses")),
       ("args", w.T4(["alpha", "beta", "gamma", "range_challenge", "logic_challenge", "fixed_base_challenge", "var_base_challenge"]))],
      c_quotient_compute, vf.out_verify, trace_only=True, tracked=("quotient_poly",))
+
+
+# ------------------------------------------------------------------ blind_wire_polynomials: wire i is masked with blinders[i] (and only with it)
+def c_join(it, recv, a):
+    return VTuple([it.call_closure(a[0], []), it.call_closure(a[1], [])])
+
+
+CONTRACTS["rayon::join"] = c_join
+
+unit("prover.blind_wire_polynomials", PV, "Prover::blind_wire_polynomials",
+     [("witnesses", lambda: VArr([Sym(f"w{i}") for i in range(4)], "array")),
+      ("blinders", lambda: VArr([VArr([Sym(f"m{i}_0"), Sym(f"m{i}_1")], "array") for i in range(4)], "array")),
+      ("domain", sym("domain"))],
+     c_blind_wire_polynomials)
